@@ -447,7 +447,7 @@ func (x *Exec) mergeValue(c *Term, a, b Value) Value {
 	if sameValue(a, b) {
 		return a
 	}
-	return ChoiceV{C: c, A: a, B: b}
+	return &ChoiceV{C: c, A: a, B: b}
 }
 
 func samePath(a, b []PathElem) bool {
@@ -465,6 +465,9 @@ func samePath(a, b []PathElem) bool {
 // sameValue is a cheap structural identity test.
 func sameValue(a, b Value) bool {
 	switch av := a.(type) {
+	case *ChoiceV:
+		bv, ok := b.(*ChoiceV)
+		return ok && av == bv
 	case Scalar:
 		bv, ok := b.(Scalar)
 		return ok && av.T == bv.T
@@ -576,7 +579,7 @@ func (x *Exec) loadPath(v Value, path []PathElem) Value {
 			unsup("bad path into symbolic array")
 		}
 		return Scalar{Select(vv.Arr, p.Idx)}
-	case ChoiceV:
+	case *ChoiceV:
 		return x.mergeValue(vv.C, x.loadPath(vv.A, path), x.loadPath(vv.B, path))
 	case UnknownV:
 		return vv
@@ -678,8 +681,8 @@ func (x *Exec) storePath(v Value, path []PathElem, nv Value, guard *Term) Value 
 			na = Ite(guard, na, vv.Arr)
 		}
 		return SymArrV{Arr: na, Len: vv.Len, W: vv.W}
-	case ChoiceV:
-		return ChoiceV{C: vv.C, A: x.storePath(vv.A, path, nv, And(guard, vv.C)), B: x.storePath(vv.B, path, nv, And(guard, Not(vv.C)))}
+	case *ChoiceV:
+		return &ChoiceV{C: vv.C, A: x.storePath(vv.A, path, nv, And(guard, vv.C)), B: x.storePath(vv.B, path, nv, And(guard, Not(vv.C)))}
 	}
 	unsup("storePath through %T", v)
 	return nil
@@ -692,7 +695,7 @@ func (x *Exec) load(p Value) Value {
 			unsup("load through nil pointer")
 		}
 		return x.loadPath(x.heapGet(pv.Obj), pv.Path)
-	case ChoiceV:
+	case *ChoiceV:
 		return x.mergeValue(pv.C, x.load(pv.A), x.load(pv.B))
 	case UnknownV:
 		return pv
@@ -709,7 +712,7 @@ func (x *Exec) store(p Value, v Value, guard *Term) {
 		}
 		x.noteWrite(pv.Obj)
 		x.st.heap.m[pv.Obj] = x.storePath(x.heapGet(pv.Obj), pv.Path, v, guard)
-	case ChoiceV:
+	case *ChoiceV:
 		x.store(pv.A, v, And(guard, pv.C))
 		x.store(pv.B, v, And(guard, Not(pv.C)))
 	default:
@@ -725,7 +728,7 @@ func ptrNil(p Value) *Term {
 		return pv.Nil
 	case IfaceV:
 		return pv.Nil
-	case ChoiceV:
+	case *ChoiceV:
 		return Ite(pv.C, ptrNil(pv.A), ptrNil(pv.B))
 	case FuncV:
 		return BoolC(pv.Fn == nil)
@@ -740,7 +743,7 @@ func term(v Value) *Term {
 	switch s := v.(type) {
 	case Scalar:
 		return s.T
-	case ChoiceV:
+	case *ChoiceV:
 		return Ite(s.C, term(s.A), term(s.B))
 	case UnknownV:
 		unsup("use of unknown value (%s)", s.Why)
@@ -749,10 +752,16 @@ func term(v Value) *Term {
 	return nil
 }
 
+var curExec *Exec
+
 func asSlice(v Value) SliceV {
 	switch s := v.(type) {
 	case SliceV:
 		return s
+	case *ChoiceV:
+		if curExec != nil {
+			return curExec.flattenSlice(s)
+		}
 	case UnknownV:
 		unsup("use of unknown slice (%s)", s.Why)
 	}
@@ -807,4 +816,26 @@ func sameValueOrRef(a, b Value) bool {
 		return false
 	}
 	return true
+}
+
+// flattenSlice turns a choice between slices into one slice over a merged backing store (a read-only view).
+func (x *Exec) flattenSlice(c *ChoiceV) SliceV {
+	a, b := asSlice(c.A), asSlice(c.B)
+	w := 8
+	for _, s := range []SliceV{a, b} {
+		if s.Obj != nil {
+			if sa, ok := x.heapGet(s.Obj).(SymArrV); ok {
+				w = sa.W
+			} else if av, ok := x.heapGet(s.Obj).(ArrayV); ok && len(av.E) > 0 {
+				if sc, ok := av.E[0].(Scalar); ok {
+					w = sc.T.S.W
+				}
+			}
+		}
+	}
+	arr := Ite(c.C, x.sliceAsArray(a, w), x.sliceAsArray(b, w))
+	ln := Ite(c.C, a.Len, b.Len)
+	o := x.newObject(types.Typ[types.Uint8], "choice-view")
+	x.st.heap.m[o] = SymArrV{Arr: arr, Len: ln, W: w}
+	return SliceV{Obj: o, Off: bv64(0), Len: ln, Cap: ln, Nil: Ite(c.C, a.Nil, b.Nil), Str: a.Str}
 }
